@@ -53,6 +53,11 @@ CLAIMED = {
    text="Unbounded (Verus): * / % and + - chains build left-associative nodes carrying the operator just read. Bounded (Kani witnesses): the cache key text differs for expressions that differ in operator, brackets, later arguments or sign; a leading minus applies to columns, functions and literals; negative and fractional right-hand values are compared as numbers; operator dispatch of + - * / and totality of / and %.",
    note="Not covered: value of %, evaluation of nested nodes by get_column_expr_value, lexer operator detection, arithmetic inside ORDER BY without WHERE."),
 
+ "C08": dict(engine="F+V", ref="5/C08",
+   technique="Kani on the real partition_output_buffer (whole function verbatim on a heap-free shim world: token texts, array-backed HashMap / Vec stand-ins) with symbolic key values; Kani on the grouping-key loop of check_file; Verus on the real parse_group_by",
+   text="Bounded: for every assignment of key values (2-element domain) to 3 buffered rows the real partition_output_buffer yields one group per distinct key value, every row in the group of its own key and in no other, in buffer order, the group sizes adding up to the number of rows - so the group COUNTs add up to the ungrouped COUNT. The grouping keys (also unselected ones) are evaluated for every accepted entry and reach the row map the partition reads. parse_group_by is panic-free and terminating for every token vector (Verus).",
+   note="Bounded (3 rows, 1 grouping expression). Not covered: the grouped output loop of list_search_results - that each group's row shows the aggregates of its own rows, ORDER BY over group rows - and hashing (std HashMap replaced by an association-list stand-in)."),
+
  "C05": dict(engine="V+F+K", ref="5/C05",
    technique="Kani on the verbatim bodies of Criteria::cmp / cmp_at (shim receiver types), on the positional / DESC arms of parse_order_by and on is_numeric_field over the whole Field enum; Verus contract on the real parse_order_by",
    text="Criteria::cmp is proved to be the lexicographic order over <= 3 keys and cmp_at to dispatch numeric / date / string keys and to reverse for desc, for all per-key outcomes; every documented integer column is proved numeric, date columns chronological, text columns string-ordered over the whole Field enum; a positional key k selects column k or is rejected. On the real parse_order_by: key list and direction list have equal length on every successful parse, positional keys are "
@@ -98,7 +103,6 @@ PENDING = "no contract-based check built yet in this revision (planned: DESIGN.m
 NOT_APPLICABLE = {
  
  
- "C08": "GROUP BY partitioning lives in iterator-adapter closures over HashMap<Vec<String>, Vec<HashMap<String,String>>>: Verus rejects the adapters, CBMC does not finish two string-keyed rows; no closed fragment carries the partition property (DESIGN.md section 6)",
  "C17": "fault isolation is about read_dir/open failures, closed pipes and the process exit status (OS behaviour); the only closed fragment (error_count -> status) is proved under C10 and does not decide C17",
  "C18": "termination and at-most-once traversal over arbitrary symlink graphs is a whole-history property of visit_dir plus the OS namespace; ok_to_visit_dir needs a DirEntry that cannot be constructed by a verifier",
  "C19": "zip member enumeration is the zip crate over real files; its LIMIT gate is proved under C06 and mode decoding under C04, neither decides C19",
